@@ -5,14 +5,14 @@ from props.asm_common import family_cases, oracle
 
 PID = "C13"
 LEAN_TARGETS = ["EtkVerif.Props.C13"]
-RULE = ("[family `provisional`: fixed-width operands over backward labels whose distance grows after they were read, in/out of range at exactly one of the two distances] well-formed programs of every generator family (layout, operators, ranges, instruction macros, expression macros; backward "
+RULE = ("[thorough adds EVERY program of up to 4 statements over a 9-statement alphabet: two labels, %push / push1 over them, an operand valid only at one distance, a 253-byte filler, a macro with a local label used twice — 7380 programs] [family `provisional`: fixed-width operands over backward labels whose distance grows after they were read, in/out of range at exactly one of the two distances] well-formed programs of every generator family (layout, operators, ranges, instruction macros, expression macros; backward "
         "and forward references, also mixed within one operand) and the same programs with one injected fault out of 12 kinds "
         "(undefined label bare / in a compound operand, duplicate label, unknown instruction / expression macro, duplicate macro "
         "name across kinds, arity mismatch, division by zero, too-large and negative operands, unbound variable, self-recursive "
         "instruction / expression macro) at a random position; the reference computes the full fault set on the hygienically "
         "expanded program; the implementation's error kind (and name, when it carries one) must be one of them, with an empty "
         "output buffer. non-trivial = the program has a fault or uses a forward reference")
-EXHAUSTIVE = {"quick": False, "thorough": False}
+EXHAUSTIVE = {"quick": False, "thorough": False}   # thorough adds an exhaustive family over a small alphabet (see RULE)
 ASSUMPTIONS = ["when several faults are present any one of them is an acceptable report"]
 
 
@@ -20,7 +20,36 @@ def cases(rng, tier):
     n = 90 if tier == "quick" else 1500
     fams = [("layout", G.gen_layout), ("exprs", G.gen_exprs), ("range", G.gen_range), ("provisional", G.gen_provisional), ("macros", G.gen_macros),
             ("emacros", G.gen_emacros), ("autopush", G.gen_autopush)]
-    return family_cases(rng, fams, n, faults=0.7)
+    cs = family_cases(rng, fams, n, faults=0.7)
+    if tier == "thorough":
+        cs += exhaustive_small(rng)
+    return cs
+
+
+def exhaustive_small(rng):
+    """EVERY program of up to 4 statements over a small alphabet that exercises the bookkeeping of the assembler: two
+    labels (defined / used forward and backward / undefined / duplicated), variable-sized and fixed pushes over them, a
+    253-byte filler that moves a label across the one-byte boundary, a macro with a local label used twice, an
+    operand in range only at one of the two distances"""
+    import itertools
+    alpha = [
+        ("label", "a"), ("label", "b"),
+        ("apush", G.X(rng, ["a"])), ("apush", G.X(rng, ["b"])),
+        ("push", 1, G.X(rng, ["b"])), ("push", 1, G.X(rng, ["b", "-", "a", "-", "3"])),
+        ("FILL",), ("op", "jumpdest"),
+        ("minv", "m", [G.X(rng, ["a"])]),
+    ]
+    mdef = ("mdef", "m", ["x"], [("label", "l"), ("push", 2, G.X(rng, ["l", "*", "256", "+", "l", "+", "$x"]))])
+    cs = []
+    for k in range(1, 5):
+        for combo in itertools.product(alpha, repeat=k):
+            prog = []
+            for st in combo:
+                prog += G.filler(rng, 253) if st == ("FILL",) else [st]
+            if any(st[0] == "minv" for st in combo):
+                prog = [mdef] + prog
+            cs.append(G.finish(prog, None, ["exhaustive-small"]))
+    return cs
 
 
 def nontrivial(case, reply):
